@@ -39,6 +39,8 @@ def handle(cmd, args):
         return mmast(args)
     if cmd == 'mmslices':
         return mmslices(args)
+    if cmd == 'mmconvdump':
+        return mmconvdump(args)
     return None
 
 
@@ -224,3 +226,73 @@ def mmslices(args):
             same = 'raise-' + type(e).__name__
         out.append('(%s %s %s %s)' % (hx(label), db_sx(sl), hx(text), same))
     return '(ok %s (slices %s))' % (head, ' '.join(out))
+
+
+def mmconvdump(args):
+    """the real MetamathConverter on a database given as hex source: the parsed AST and the answers to the queries translate.py makes,
+    in the format of the Lean driver's `mmconv` (symbols numbered by their position among the declared constants)"""
+    from proof_generation.metamath.ast import ConstantStatement
+    from proof_generation.metamath.converter.converter import MetamathConverter
+    from proof_generation.metamath.converter.representation import AxiomWithAntecedents
+    from proof_generation.metamath.parser import parse_database
+    from proof_generation.pattern import App, Implies, MetaVar, Symbol
+    src = bytes.fromhex(args[0]).decode('utf-8')
+    target = bytes.fromhex(args[1][1:]).decode('utf-8') if args[1].startswith('h') else args[1]
+    try:
+        db = parse_database(src)
+    except RecursionError:
+        raise
+    except Exception as e:   # noqa
+        return '(raise parse %s)' % type(e).__name__
+    consts = []
+    for st in db.statements:
+        if isinstance(st, ConstantStatement):
+            consts += list(st.constants)
+
+    def pat(p):
+        if isinstance(p, Symbol):
+            return '(sym %d)' % consts.index(p.name)
+        if isinstance(p, Implies):
+            return '(imp %s %s)' % (pat(p.left), pat(p.right))
+        if isinstance(p, App):
+            return '(app %s %s)' % (pat(p.left), pat(p.right))
+        if isinstance(p, MetaVar):
+            return '(mv %d %s)' % (p.name, ' '.join('(' + ' '.join(str(x.name) for x in l) + ')' for l in (p.e_fresh, p.s_fresh, p.positive, p.negative, p.app_ctx_holes)))
+        raise ValueError(repr(p))
+
+    def strs(xs):
+        return '(' + ' '.join(hx(x) for x in xs) + ')'
+    try:
+        c = MetamathConverter(db)
+    except RecursionError:
+        raise
+    except Exception as e:   # noqa
+        return '(dump %s (raise))' % db_sx(db)
+
+    def ax(l):
+        try:
+            a = c.get_axiom_by_name(l)
+            mio = c.get_metavars_in_order(l)
+            ants = '(some %s)' % ' '.join(pat(x) for x in a.antecedents) if isinstance(a, AxiomWithAntecedents) else 'none'
+            return '(%s %s %s %s %s)' % (hx(l), pat(a.pattern), strs(sorted(set(a.metavars))), ants, strs(mio))
+        except Exception:   # noqa
+            return '(%s raise)' % hx(l)
+    fps = ' '.join('(%s %s)' % (hx(l), ' '.join(pat(x) for x in ps)) for l, ps in c._fp_label_to_pattern.items())
+
+    def mv(v):
+        try:
+            return '(%s %s)' % (hx(v), pat(c.resolve_metavar(v)))
+        except Exception:   # noqa
+            return '(%s raise)' % hx(v)
+    try:
+        lm = c.get_lemma_by_name(target)
+        pf = lm.proof
+        lem = '(lemma %s %s (%s) (%s))' % (pat(lm.pattern), strs(list(pf.labels.values())), ' '.join(map(str, pf.labels.keys())), ' '.join(map(str, pf.applied_lemmas)))
+    except AttributeError:
+        lem = '(lemma noproof)'
+    except Exception:   # noqa
+        lem = '(lemma raise)'
+    out = '(ok (pcs %s) (prs %s) (exported %s) (axioms %s) (fps %s) (mvs %s) (lemmas %s) %s (consts %s))' % (
+        strs(sorted(c.pattern_constructors)), strs(sorted(c.proof_rules)), strs(c.exported_axioms), ' '.join(ax(l) for l in c.axioms), fps,
+        ' '.join(mv(v) for v in c._floating_patterns), strs(c.lemmas), lem, strs(consts))
+    return '(dump %s %s)' % (db_sx(db), out)
